@@ -179,6 +179,25 @@ def generate(tier, seed):
                     for mk in (('scalar',) if tier == 'quick' else ('scalar', 'pervar')):
                         yield {'n': n, 'split': 'one_array', 'obj': obj, 'cons': cons, 'bounds': 'wide', 'move': mk,
                                'start': start, 'version': ver, 'asy': 'default', 'table': tb, 'tolx': 'default'}
+    # the same problems on a uniformly small physical scale (box about 1e-3 wide) with the default stopping tolerance,
+    # and with every lower bound exactly 0 and starts exactly on it
+    yield {'__level__': 'small physical scale (default tolx); lower bounds exactly zero'}
+    for n in ((2, 3) if tier == 'quick' else (2, 3, 5)):
+        for obj, cons in itertools.product(R.OBJECTIVES, R.CONSTRAINTS):
+            if _expected_unbalanced(n, obj, cons, table):
+                continue
+            if obj == 'recip':
+                # sum c/x is not normalised: on a box of width 1e-3 its gradient is 1e6 times that of the constraints, far
+                # beyond what the default penalty c = 1000 of the MMA formulation is meant for (a modelling matter)
+                continue
+            for ver in R.VERSIONS:
+                for start in ('lower', 'mixed', 'upper'):
+                    yield {'n': n, 'split': 'one_array', 'obj': obj, 'cons': cons, 'bounds': 'small', 'move': 'scalar',
+                           'start': start, 'version': ver, 'asy': 'default', 'table': table, 'tolx': 'default'}
+                if True:
+                    for start in ('lower', 'partzero', 'mixed'):
+                        yield {'n': n, 'split': 'one_array', 'obj': obj, 'cons': cons, 'bounds': 'zero',
+                               'move': 'scalar', 'start': start, 'version': ver, 'asy': 'default', 'table': table}
     # a callback that prescribes one variable by assigning a new state: the sub-problem is built at the design the
     # responses were evaluated at
     yield {'__level__': 'callback prescribing a variable'}
